@@ -42,7 +42,7 @@ def gen_cases(tier, seed):
         c = simreg.random_sim_case(r, sim)
         N = [10400, 24000, 70000][j // len(simreg.ALL_SIMS)] + r.randrange(200)
         c['graph'] = {'n': N, 'edges': [], 'big': {'k': r.choice([2, 3]), 'seed': cs}, 'labels': r.choice(['int', 'offset', 'str', 'neg'])}
-        for key in ('prehistory', 'ic_extra', 'rho', 'R0_explicit_empty', 'sim_kwargs'):
+        for key in ('prehistory', 'ic_extra', 'rho', 'R0_explicit_empty', 'sim_kwargs', 'stay'):
             c.pop(key, None)
         c['wm'] = 'none'
         c['big'] = True
